@@ -141,6 +141,7 @@ struct Sched {
         }
         next_low_prio = -1;
         oplog.clear();
+        spurious_wakeups = 0;
         in_run = true;
     }
     Stats end() {
@@ -206,12 +207,30 @@ struct Sched {
         }
     }
 
+    //! spurious wake-ups (allowed by the standard for condition_variable::wait): with probability
+    //! 1/spurious_den per scheduling point one thread blocked in a wait becomes runnable without a
+    //! notify. Off by default - they would rescue lost wake-ups; runs that enable them check that the
+    //! predicate loops of the code under test tolerate them.
+    unsigned spurious_den = 0;
+    uint64_t spurious_wakeups = 0;
+    void maybe_spurious() {
+        if (!spurious_den || rnd() % spurious_den != 0) return;
+        ThreadRec* cand[128]; unsigned n = 0;
+        for (ThreadRec* t : threads)
+            if (t->state == ThreadRec::BLOCKED && t->wait_kind == 'c' && n < 128) cand[n++] = t;
+        if (!n) return;
+        ThreadRec* t = cand[rnd() % n];
+        t->state = ThreadRec::RUNNABLE; t->wait_obj = nullptr;
+        ++spurious_wakeups;
+    }
+
     //! scheduling point of a runnable thread
     void yield_point(bool demote = false) {
         if (!serial()) return;
         ThreadRec* s = me();
         if (threads.size() <= 1) return;
         step_bound();
+        maybe_spurious();
         ThreadRec* next = pick(s, true, demote);
         hand_over(s, next, false);
     }
